@@ -219,6 +219,12 @@ def make_app_classes():
                 raise RuntimeError('app: publisher.subscribe raised')
             self.subscriber = subscriber
             subscriber.on_subscribe(self)
+            act = getattr(self, 'in_subscribe', None)
+            if act == 'complete':
+                # an empty publisher: completion needs no demand, it may be signalled right after on_subscribe
+                self.complete()
+            elif act == 'error':
+                self.error()
 
         # Subscription (called by the library)
         def request(self, n):
@@ -519,6 +525,7 @@ class World:
             if pol.get('sync') is not None:
                 pub.sync_items = [list(x) for x in pol['sync']]
                 pub.sync_complete_on_last = bool(pol.get('complete_on_last', True))
+            pub.in_subscribe = pol.get('pub_in_subscribe')
             return pub
         items = pol.get('items', [])
         col = pol.get('complete_on_last', True)
